@@ -136,14 +136,30 @@ class Scratch:
         finally:
             shutil.rmtree(wd, ignore_errors=True)
 
-    def run_workers(self, script, payloads, *, timeout=600, jobs=None, hashseeds=None, extra_env=None):
-        """Run several worker invocations concurrently; keeps order."""
+    def run_workers(self, script, payloads, *, timeout=600, jobs=None, hashseeds=None, extra_env=None,
+                    max_timeouts=None):
+        """Run several worker invocations concurrently; keeps order.  With max_timeouts=k, invocations that
+        have not started when k others already missed their deadline are not run (status 'skipped'): a tree
+        on which everything hangs is reported after a few deadlines instead of hundreds."""
         from concurrent.futures import ThreadPoolExecutor
+        import threading
         jobs = jobs or min(NCPU, max(1, len(payloads)))
         hashseeds = hashseeds or [0] * len(payloads)
+        lock = threading.Lock()
+        n_timeouts = [0]
+
+        def one(pl, hs):
+            if max_timeouts is not None:
+                with lock:
+                    if n_timeouts[0] >= max_timeouts:
+                        return "skipped", {}
+            st, res = self.run_worker(script, pl, hashseed=hs, timeout=timeout, extra_env=extra_env)
+            if st == "timeout":
+                with lock:
+                    n_timeouts[0] += 1
+            return st, res
         with ThreadPoolExecutor(jobs) as ex:
-            futs = [ex.submit(self.run_worker, script, pl, hashseed=hs, timeout=timeout, extra_env=extra_env)
-                    for pl, hs in zip(payloads, hashseeds)]
+            futs = [ex.submit(one, pl, hs) for pl, hs in zip(payloads, hashseeds)]
             return [f.result() for f in futs]
 
 
